@@ -29,6 +29,7 @@ func ObserveNote(vs []*int64) *scorch.VerifEvent {
 }
 
 type ditem struct {
+	files []uint64 // merge_start: ids of merged segment files already written
 	term  cf.T
 	epoch uint64 // for introducer items: the epoch they published
 	intro bool
@@ -52,6 +53,7 @@ func DiskTerms(evs []*scorch.VerifEvent, n *strace.Namer, ver strace.VersionOf) 
 		merge bool
 	}
 	var pending []pend
+	mergedWritten := map[uint64]bool{}
 	insertAfterCreator := func(it ditem, ep uint64) {
 		// after the creator of ep and after merge_starts already placed there
 		pos := sessionStart
@@ -74,6 +76,10 @@ func DiskTerms(evs []*scorch.VerifEvent, n *strace.Namer, ver strace.VersionOf) 
 			if published[p.after] {
 				if p.merge {
 					insertAfterCreator(p.it, p.after)
+					for _, id := range p.it.files {
+						out = append(out, ditem{term: cf.App("XFile", cf.U(id))})
+						stats["file"]++
+					}
 				} else {
 					out = append(out, p.it)
 				}
@@ -103,8 +109,21 @@ func DiskTerms(evs []*scorch.VerifEvent, n *strace.Namer, ver strace.VersionOf) 
 			t, _ := strace.TermOf(e, n, ver)
 			it := ditem{term: cf.App("XCore", t)}
 			stats["merge_start"]++
+			// the merged files were written before this event; the model learns the new segment ids
+			// from TMergeStart, so their XFile events follow it (a merged file whose merge is never
+			// handed to the introducer is garbage the model need not know about)
+			for _, task := range e.Tasks {
+				if mergedWritten[task.New] {
+					it.files = append(it.files, task.New)
+					delete(mergedWritten, task.New)
+				}
+			}
 			if hasCreator(e.Epoch) || (haveInitial && e.Epoch == initialEpoch) {
 				insertAfterCreator(it, e.Epoch)
+				for _, id := range it.files {
+					out = append(out, ditem{term: cf.App("XFile", cf.U(id))})
+					stats["file"]++
+				}
 			} else {
 				pending = append(pending, pend{it, e.Epoch, true})
 			}
@@ -134,10 +153,19 @@ func DiskTerms(evs []*scorch.VerifEvent, n *strace.Namer, ver strace.VersionOf) 
 			out = append(out, ditem{term: cf.App("XCopyEnd", cf.ListOf(ids, cf.U))})
 		case "point":
 			switch e.Name {
-			case "segfile_written", "memmerge_written", "filemerge_written":
+			case "segfile_written":
 				if len(e.Args) > 0 {
 					out = append(out, ditem{term: cf.App("XFile", cf.U(e.Args[0]))})
 					stats["file"]++
+				}
+			case "memmerge_written", "filemerge_written":
+				if len(e.Args) > 0 {
+					mergedWritten[e.Args[0]] = true
+				}
+			case "merge_abandoned":
+				if len(e.Args) > 0 {
+					out = append(out, ditem{term: cf.App("XMergeAbort", cf.U(e.Args[0]))})
+					stats["merge_abandoned"]++
 				}
 			case "persist_before_commit":
 				out = append(out, ditem{term: "XCommitIntent"})
@@ -176,6 +204,7 @@ func DiskTerms(evs []*scorch.VerifEvent, n *strace.Namer, ver strace.VersionOf) 
 			case "crash":
 				// events still waiting for their epoch never happened as far as the disk is concerned
 				pending = nil
+				mergedWritten = map[uint64]bool{}
 				out = append(out, ditem{term: "XCrash"})
 				stats["crash"]++
 			case "recover":
@@ -187,6 +216,10 @@ func DiskTerms(evs []*scorch.VerifEvent, n *strace.Namer, ver strace.VersionOf) 
 						pos = i + 1
 						break
 					}
+				}
+				// an offline Rollback happens between the end of the process and the reopen
+				for pos < len(out) && strings.HasPrefix(string(out[pos].term), "(XRollback") {
+					pos++
 				}
 				out = append(out, ditem{})
 				copy(out[pos+1:], out[pos:])
